@@ -59,7 +59,7 @@ Allowed(st, ev) ==
     [] ev.e = "unwound" -> ev.lookup = "abort" \/ ev.t \in DOMAIN st.live
     \* destroy_sandbox + create_sandbox with owners alive: neither "its owner unregisters" nor "is
     \* destroyed" - every token stays issued, taken and resolvable (Apply leaves the state alone)
-    [] ev.e = "sbxcycle" -> ev.out = "ok"
+    [] ev.e = "sbxcycle" -> ev.out \in {"ok", "abort"}   \* (refusing is inside the Contract: the history ends there)
     [] ev.e = "olookup" ->
          /\ st.own[ev.o] \notin {None, 0}
          /\ ev.out = "ok" /\ ev.p = st.live[st.own[ev.o]] /\ ev.t = st.own[ev.o]
